@@ -1024,7 +1024,52 @@ func (r *rwRT) ruleOptOrder() {
 			}
 		}
 	}
-	for _, key := range []string{"file using seq", "second file using seq", "file not using seq", "imports cleaned after the last optimisation", "a file is chosen for writing before any optimisation pass has run"} {
+	// A file shared by a package and its test variant is handed to the callbacks twice, with one and the same syntax
+	// tree: its per-file steps run once (a second import clean-up works on specs the first one has rewritten and
+	// drops the blank imports: `_ "embed"` next to a //go:embed directive).
+	{
+		sts2 := []*State{base}
+		for _, visit := range visits {
+			for i := 0; i < 2; i++ {
+				var next []*State
+				for _, st := range sts2 {
+					for _, o := range in.Apply(st, visit, []AV{Sym{Name: "f", NN: true}}) {
+						if !o.Panicked {
+							next = append(next, o.St)
+						}
+					}
+				}
+				sts2 = next
+			}
+		}
+		r.account(in)
+		for _, st := range sts2 {
+			uses := false
+			for _, l := range st.Labels {
+				if l == "f uses seq" {
+					uses = true
+				}
+			}
+			if !uses {
+				continue
+			}
+			cleans, prints := 0, 0
+			for _, e := range st.Events[len(base.Events):] {
+				if e.Kind != "call" {
+					continue
+				}
+				if e.Fn != nil && e.Fn.Name() == "Clean" && strings.Contains(fnPkgPath(e.Fn), "go-imports") {
+					cleans++
+				}
+				if isSymNamed(e.Callee, "printer") {
+					prints++
+				}
+			}
+			note("a file visited twice is processed once", cleans == 1 && prints == 1,
+				fmt.Sprintf("a file that is visited twice (it belongs to a package and to its test variant, one syntax tree) has its imports cleaned %d times and is printed %d times: the second clean-up no longer recognises a blank import and removes it (`_ \"embed\"` disappears, the //go:embed directive stays: the generated file does not build, and its bytes depend on whether the package has a test file)", cleans, prints))
+		}
+	}
+	for _, key := range []string{"file using seq", "second file using seq", "file not using seq", "imports cleaned after the last optimisation", "a file is chosen for writing before any optimisation pass has run", "a file visited twice is processed once"} {
 		v := res[key]
 		if v == nil {
 			c.und("OPT.ORDER", key, pos, "no path of the per-file callbacks exercises this obligation")
